@@ -110,3 +110,10 @@ def run_case(desc):
         elif t in (mc.Surface, mc.Material2D) and (set(h3.basis_indices) != set(c.basis_indices) or set(h1.basis_indices) != set(c.basis_indices)):
             out.fail("instance-history", "region of the same structure differs after the instance classified another structure")
     return out
+
+
+def extra_engine(tier, seed, work):
+    """rule-based state machine over ONE Classifier object: classify(structure k) in any order must give what a fresh
+    classifier gives (vlib/stateful_sbc.py)"""
+    from vlib import stateful_sbc
+    return stateful_sbc.campaign(ID, "cls", seed, 8 if tier == "quick" else 80)
